@@ -91,6 +91,17 @@ def build_asgi_app(gate, independent=True):
     import falcon
     import falcon.asgi
 
+    class Rejected(Exception):
+        pass
+
+    async def on_rejected(req, resp, ex, params):
+        # handlers receive the params of the request at hand and may use them as scratch space
+        params['client'] = req.get_header('X-Tag')
+        params.setdefault('first_path', req.path)
+        await gate()
+        resp.status = 403
+        resp.media = {'rejected': dict(params)}
+
     class Trace:
         """Outer component: every request must come back through it exactly once."""
         def __init__(self, name):
@@ -108,8 +119,10 @@ def build_asgi_app(gate, independent=True):
             req.context.tag = req.get_header('X-Tag')
             req.params['mw'] = req.get_header('X-Tag')
             await gate()
-            if req.get_header('X-Reject'):
+            if req.get_header('X-Reject') == '1':
                 raise falcon.HTTPForbidden(description=req.get_header('X-Tag'))
+            if req.get_header('X-Reject'):
+                raise Rejected()
 
         async def process_resource(self, req, resp, resource, params):
             params['tenant'] = req.get_header('X-Tag')
@@ -148,6 +161,7 @@ def build_asgi_app(gate, independent=True):
 
     app = falcon.asgi.App(middleware=[Trace('outer'), Ctx(), Pause(), Trace('inner')],
                           independent_middleware=independent)
+    app.add_error_handler(Rejected, on_rejected)
     app.add_route('/a/{x:int}', Item())
     app.add_route('/b/{y:int}', Other())
     return app
@@ -175,12 +189,15 @@ def request_pool():
         Req('POST', b'/a/5', b'', [('X-Tag', 't13'), ('Content-Type', 'application/json')], b'{"k": \xff}', chunks=[3]),
         Req('POST', b'/a/5', b'', [('X-Tag', 't14'), ('Content-Type', 'application/json')], b'{"k": [1, 2,}', chunks=[6]),
         Req('GET', b'/a/3', b'q=one', [('X-Tag', 't15'), ('X-Reject', '1')]),                # refused by a middleware
+        Req('GET', b'/a/3', b'q=one', [('X-Tag', 't16'), ('X-Reject', '2')]),                # refused, custom handler
+        Req('GET', b'/b/7', b'', [('X-Tag', 't17'), ('X-Reject', '2')]),
     ]
 
 
 NAMES = ['GET /a/3', 'GET /b/7', 'POST /a/5', 'GET /b/13 (400)', 'GET /a/nope (404)', 'PUT /b/2 (405)',
          'GET /a/3 #2', 'POST /a/5 #2', 'GET /a/3?q=one #3', 'GET /b/7 #2', 'POST form alice', 'POST form bob',
-         'POST bad json #1', 'POST bad json #2', 'GET /a/3 refused (403)']
+         'POST bad json #1', 'POST bad json #2', 'GET /a/3 refused (403)', 'GET /a/3 refused (handler)',
+         'GET /b/7 refused (handler)']
 
 
 def proj(res):
@@ -491,7 +508,7 @@ def run(ctx):
     ctx.extra['tlc_task_schedules'] = len(tscheds)
     serial_t = {True: serial_tasks(pool, True), False: serial_tasks(pool, False)}
     step = max(1, len(tscheds) // ctx.pick(150, 924))
-    combos = pairs + [(3, 0), (7, 2), (11, 10), (9, 1), (13, 12), (12, 2), (0, 14), (14, 0), (14, 2), (1, 14)]
+    combos = pairs + [(3, 0), (7, 2), (11, 10), (9, 1), (13, 12), (12, 2), (0, 14), (14, 0), (14, 2), (1, 14), (15, 16), (16, 15), (15, 0)]
     n = 0
 
     def check_tasks(idx, sc, key, nontrivial):
